@@ -309,4 +309,5 @@ def share_cases(rng, tier):
         cases.append("sss %s %s r 0 0" % (q, seed(rng)))
         for x, y in [("r", "r"), ("0", "r"), ("r", "0"), ("1", "n-1"), ("n-1", "n-1"), ("0", "0"), ("r", "r"), ("r", "r")]:
             cases.append("mt %s %s %s %s" % (q, seed(rng), x, y))
+            cases.append("mt %s %s %s %s %d" % (q, seed(rng), x, y, rng.choice([1, 2])))      # result over an opened value
     return cases
